@@ -170,6 +170,11 @@ class Ref:
             kwargs = {}
             causes = set()
             used = []
+            # a node that declares Input(Dest) next to RecurrentSubGraph(dest_node=Dest) gets the FINAL value through
+            # both parameters, whatever their order: the recurrent marks are resolved first
+            for idx, (pname, m) in enumerate(node.get('params', [])):
+                if m[0] == 'rec':
+                    self.eval_mark(nid, idx, pname, m, [])
             for idx, (pname, m) in enumerate(node.get('params', [])):
                 o = self.eval_mark(nid, idx, pname, m, used)
                 if o[0] == 'ok':
